@@ -68,6 +68,11 @@ CHECKS = {
   note="Trusted: go/ssa; net/http delivers r.RemoteAddr unique per connection; the SessionStore implementation. Two genuine defects (snapshot not replacing, silent drop) were repaired by fix: commits.",
   tech="static analysis: path-sensitive finite-domain dataflow for must-apply, exhaustiveness over declared constants, effect rules (no go/send), value-provenance of the registry key",
   ref="DESIGN.md §2 C13"),
+ "C17": dict(
+  text="Structural premises of cluster-wide owner agreement on pool.PeerPool: the score of a (subscriber, node) pair is a pure function of the pair (effect analysis below rendezvousHash/rendezvousRanked/hashCombine/hashString: no package state, receiver, map iteration, clock, randomness or I/O), from which order-independence and minimal disruption of highest-random-weight hashing follow; every store to the peer list keeps it sorted and duplicate-free (growth re-sorted and guarded by a membership scan, removal by order-preserving splice, constructor sorts first); getHealthyOwner ranks with rendezvousRanked over the peer list, walks it from the top and returns the first element that is local or not known unhealthy, local only as the final fallback; owner lookup and allocation score with the same function; Allocate/Release touch the local pool only under owner == local node. Ties on equal 64-bit scores, distribution quality and end-to-end HTTP are not decided.",
+  note="Trusted: go/ssa; hash/fnv and sort are deterministic; the minimal-disruption law is argued from purity, not checked numerically.",
+  tech="static analysis: effect/purity analysis over the call graph, store-shape rules, dominance rules on go/ssa",
+  ref="DESIGN.md §2 C17, §1.3 E9"),
 }
 NA = {}
 def main():
